@@ -190,6 +190,21 @@ def run(ctx: Ctx):
     names_resolve(ctx, "C19-GN")
     from .common_node import taken_socket_is_closed
     taken_socket_is_closed(ctx, "C19-G11")
+    ctx.rule("C19-G12", "the sender's own waiting record is released with the connection its request "
+                        "went over", floor=1)
+    _nc = model.cls("node.node", "Node")
+    _rem = _nc.methods.get("remove_peer_connection")
+    ctx.inst("remove_peer_connection:waiters-released", rule="C19-G12")
+    if _rem is not None:
+        ctx.use(_rem)
+        _src = ast.unparse(_rem.node)
+        if "_app_waiting_answer" in _src and not any(k in _src for k in ("receive_answer", "_answer_waiting", ".event.set", "connection_lost")):
+            ctx.fail("remove_peer_connection:waiters-released", _rem.loc(),
+                     "remove_peer_connection sweeps the node's request->application records of the lost "
+                     "connection but tells the applications nothing: the senders blocked in send_request keep "
+                     "their Application._answer_waiting records and stay blocked until their own time-out "
+                     "(for ever with timeout=None) although no answer can arrive any more "
+                     "(findings/audit3/C19-2)", rule="C19-G12")
     from .common_node import clock_agreement
     clock_agreement(ctx, "C19-G10", {("node.peer", "PeerConnection", "_created"): ["lifetime"]})
     found = discover(model)
@@ -526,6 +541,13 @@ def _membership_fact(fact, attr: str, f) -> bool:
     # derived from the table search
     if op in ("in-expr",) and attr in str(v):
         return True
+    # `rec = table.get(k)` ... `rec is None`: the membership test, made with one look-up
+    if op == "is" and v is None and isinstance(s, str) and s.isidentifier():
+        for n in ast.walk(f.node):
+            if isinstance(n, ast.Assign) and any(isinstance(tg, ast.Name) and tg.id == s for tg in n.targets) \
+                    and isinstance(n.value, ast.Call) and isinstance(n.value.func, ast.Attribute) \
+                    and n.value.func.attr == "get" and attr in ast.unparse(n.value.func.value):
+                return True
     return False
 
 
